@@ -5,47 +5,13 @@
 //  * an extra key at every nesting level of a fully run-time make_solver tree is reported through
 //    the unknown-parameter hook; a tree with documented keys only is silent.
 #include "c14_equiv.hpp"
+#include "c14_enum.hpp"
 #include <amgcl/preconditioner/runtime.hpp>
 #include <amgcl/solver/precond_side.hpp>
 
 namespace c14 {
 typedef amgcl::make_solver<amgcl::amg<B, amgcl::runtime::coarsening::wrapper, amgcl::runtime::relaxation::wrapper>, amgcl::runtime::solver::wrapper<B>> RTS;
 typedef amgcl::make_solver<amgcl::runtime::preconditioner<B>, amgcl::runtime::solver::wrapper<B>> RTP;
-
-static std::vector<std::string> mutate(const std::string &s, Rng &r) {
-    std::vector<std::string> m = {"", "nonsense", "0", "1", "-1", "default", "???", s + "x", "x" + s, s + "_", "_" + s, s + " x", "x " + s, s + "," + s};
-    std::string u = s; for (auto &ch : u) ch = (char)toupper(ch); m.push_back(u);
-    std::string cap = s; cap[0] = (char)toupper(cap[0]); m.push_back(cap);
-    if (s.size() > 1) { m.push_back(s.substr(0, s.size() - 1)); m.push_back(s.substr(1)); std::string w = s; std::swap(w[0], w[1]); m.push_back(w); }
-    std::string d = s; for (auto &ch : d) if (ch == '_') ch = '-'; m.push_back(d);
-    std::string rnd; for (int i = 0; i < 6; ++i) rnd += (char)('a' + r.range(0, 25)); m.push_back(rnd);
-    return m;
-}
-
-// E: enumeration type; ctor(tree) constructs the library object that reads `key` from the tree
-template <class E, class Ctor> void enum_case(const char *what, const char *key, const std::vector<std::string> &names, long idx, Ctor ctor) {
-    if (!vf::selected("enum_strings", idx)) return;
-    Rng r(vf::case_seed("enum_strings", idx));
-    Case c("enum_strings", idx, J().s("enumeration", what).n("names", names.size()));
-    std::set<int> seen;
-    for (auto &n : names) {
-        try { ptree t; t.put(key, n); E v = t.get<E>(key); seen.insert((int)v);
-              ptree o; o.put(key, v); c.check(o.get<std::string>(key) == n, std::string("enum:") + what + ":" + n + ":name-not-written-back", "valid name is exported as '" + o.get<std::string>(key) + "'");
-              ptree t2; t2.put(key, n); ctor(t2); c.nontrivial(); }
-        catch (const std::exception &ex) { c.fail(std::string("enum:") + what + ":" + n + ":valid-name-rejected", ex.what()); }
-    }
-    c.check(seen.size() == names.size(), std::string("enum:") + what + ":names-not-distinct", "two documented names select the same enumerator");
-    std::set<std::string> valid(names.begin(), names.end()); long tried = 0;
-    for (auto &n : names) for (auto &bad : mutate(n, r)) {
-        if (valid.count(bad)) continue; ++tried;
-        bool threw = false; try { ptree t; t.put(key, bad); (void)t.get<E>(key); } catch (const std::exception &) { threw = true; }
-        c.check(threw, std::string("enum:") + what + ":invalid-string-accepted-by-parser", "'" + bad + "' was converted to an enumerator without an exception");
-        threw = false; try { ptree t; t.put(key, bad); ctor(t); } catch (const std::exception &) { threw = true; }
-        c.check(threw, std::string("enum:") + what + ":invalid-string-accepted-by-constructor", "'" + bad + "' was accepted by the run-time class");
-    }
-    vf::obs_sum("invalid_enum_strings_tried", (double)tried); vf::obs_add("enumerations", what);
-    vf::sample("enum_strings", J().s("enumeration", what).n("valid_names", names.size()).n("invalid_strings", tried));
-}
 
 void run_enum_cases() {
     Rng g(12345); vf::GridSpec gs; gs.nx = 6; gs.ny = 5; Csr<double> A = vf::grid_diffusion(gs, g);
@@ -70,7 +36,7 @@ void run_enum_cases() {
 // unknown keys through the run-time classes (the children of the run-time params are raw trees:
 // the key is only seen when the selected component is constructed)
 void run_unknown_runtime_cases() {
-    long N = vf::tier(24, 240);
+    long N = vf::tier(48, 600);
     for (long idx = 0; idx < N; ++idx) {
         if (!vf::selected("unknown_runtime", idx)) continue;
         Rng r(vf::case_seed("unknown_runtime", idx)); Env e(r); e.allow_blocks = false; std::string fam;
